@@ -41,7 +41,12 @@ def step_check(proj, i, obs):
 
 
 def alphabet_ifc(world, h):
-    return e1prop.std_alphabet(world, h, redo_targets=[], touch=False, rm_targets=False, dovar=False, rm_sources=["f"])
+    ops = e1prop.std_alphabet(world, h, redo_targets=[], touch=False, rm_targets=False, dovar=False, rm_sources=["f"])
+    # the watched path asked for by itself: an error while it is absent (there is no rule for it), a source once it exists
+    # (not where f is a dangling link of the user's: asked for by name that is a file of theirs, watched it is "absent")
+    if "f" in world.sources and not getattr(world, "symlinks", None) and sum(1 for op in h if op[0] == "ifchange" and op[1] == ["f"]) < 1:
+        ops.append(["ifchange", ["f"]])
+    return ops
 
 
 def alphabet_under(world, h):
